@@ -454,3 +454,16 @@ def calls_along_path(body, var, start, v, preds, stop, limit=80):
             return None if not nx else out
         b = nx[0]
     return None
+
+
+
+def expand_locals(body, text, rounds=3):
+    """a description that stops at a local holding the result of a call (`_N as Continue.0`): say what the local holds"""
+    import re as _re
+
+    for _i in range(rounds):
+        mm = _re.search(r"\b_(\d+)\b(?= as )", text)
+        if not mm or int(mm.group(1)) <= body.arg_count:
+            break
+        text = text[: mm.start()] + repr(describe_place(body, {"l": int(mm.group(1)), "p": []})) + text[mm.end():]
+    return text
